@@ -442,11 +442,21 @@ func (c *RemoteClient) DumpAll() *DumpResult {
 		if strings.HasPrefix(db.Name, "template") {
 			continue
 		}
+		// like DumpDataDir: a database whose pg_class cannot be read (or is empty) is left out
+		if len(c.Tables(db.OID)) == 0 && !c.hasClassFile(db.OID) {
+			continue
+		}
 		if dump := c.DumpDatabase(db.OID); dump != nil {
 			result.Databases = append(result.Databases, *dump)
 		}
 	}
 	return result
+}
+
+// hasClassFile reports whether base/<dbOID>/1259 (pg_class) can be read and is not empty
+func (c *RemoteClient) hasClassFile(dbOID uint32) bool {
+	data, err := c.reader(fmt.Sprintf("base/%d/%d", dbOID, PGClass))
+	return err == nil && len(data) > 0
 }
 
 func (c *RemoteClient) findDB(oid uint32) *DatabaseInfo {
